@@ -14,8 +14,9 @@
    Everything the SDK / ethermint / ibc decorators decide (gas set-up,
    ValidateBasic, memo, fees, public keys, signatures, sequence numbers,
    redundant relay; on the Ethereum path everything except "every message is
-   a MsgEthereumTx") is one oracle bit [rest] per evaluation: the theorems
-   hold for both of its values. *)
+   a MsgEthereumTx") is an oracle of two bits per evaluation — [o_pre] for the
+   foreign decorators placed before Kava's gates in the chain, [o_post] for
+   those placed after them: the theorems hold for all four values. *)
 From Coq Require Import String.
 From Kava Require Import Base.Prelude.
 
@@ -115,6 +116,11 @@ Record config := mkCfg {
   c_authorised : list nat   (* union of what the fetchers return *)
 }.
 
+(* the verdicts of the decorators that are not Kava's: those before the gates
+   (set-up, extension-option check; on the Ethereum path set-up, mempool fee,
+   ValidateBasic, signature verification) and those after them *)
+Record oracle := mkOracle { o_pre : bool; o_post : bool }.
+
 Inductive reason :=
 | RExtMany      (* more than one extension option *)
 | RExtUnknown   (* one unsupported extension option *)
@@ -163,7 +169,11 @@ Inductive decorator :=
 | DEvmMinGasFilter | DVestingAccount | DAuthzLimiter
 | DValidateBasic | DTxTimeoutHeight | DValidateMemo | DConsumeGasForTxSize
 | DDeductFee | DSetPubKey | DValidateSigCount | DSigGasConsume | DSigVerification
-| DIncrementSequence | DRedundantRelay.
+| DIncrementSequence | DRedundantRelay
+(* newEthAnteHandler *)
+| DEthSetUpContext | DEthMempoolFee | DEthValidateBasic | DEthSigVerification
+| DEthAccountVerification | DCanTransfer | DEthGasConsume
+| DEthIncrementSenderSequence | DEthEmitEvent.
 
 Inductive cond := Always | IfNotEIP712 | IfFetchers.
 
@@ -183,50 +193,67 @@ Definition cond_holds (c : cond) (eip712 fetchers : bool) : bool :=
 Definition cosmos_chain (eip712 fetchers : bool) : list decorator :=
   map snd (filter (fun e => cond_holds (fst e) eip712 fetchers) chain_table).
 
-(* one decorator: [None] = it calls next.  The oracle bit is charged to the
-   last decorator of the chain; SetUpContext, ExtensionOptions (no options on
-   that path) and the min-gas filter never reject. *)
-Definition run_decorator (d : decorator) (cfg : config) (md : mode) (t : tx) (rest : bool) : option reason :=
+(** The decorator chain of newEthAnteHandler, same representation. *)
+Definition eth_chain_table : list (cond * decorator) :=
+  [ (Always, DEthSetUpContext); (Always, DEthMempoolFee); (Always, DEthValidateBasic);
+    (Always, DEthSigVerification);
+    (IfFetchers, DAuthenticatedMempool);
+    (Always, DEthAccountVerification); (Always, DCanTransfer); (Always, DEthGasConsume);
+    (Always, DEthIncrementSenderSequence); (Always, DEthEmitEvent) ].
+
+Definition eth_chain (fetchers : bool) : list decorator :=
+  map snd (filter (fun e => cond_holds (fst e) false fetchers) eth_chain_table).
+
+(* one decorator: [None] = it calls next.  [o_pre] is charged to the first
+   foreign decorator of the cosmos chain (SetUpContext) and, on the Ethereum
+   path, to EthSigVerificationDecorator, which is also where the model places
+   the type assertion *evmtypes.MsgEthereumTx that every message-walking
+   Ethereum decorator makes (this one in every mode); [o_post] is charged to
+   the last decorator of each chain. *)
+Definition run_decorator (d : decorator) (cfg : config) (md : mode) (t : tx) (o : oracle) : option reason :=
   match d with
   | DRejectMessages => reject_messages t
+  | DSetUpContext => if o_pre o then None else Some RRest
   | DAuthenticatedMempool => authenticated_mempool cfg md t
   | DVestingAccount => vesting_decorator t
   | DAuthzLimiter => authz_limiter t
-  | DRedundantRelay => if rest then None else Some RRest
+  | DRedundantRelay => if o_post o then None else Some RRest
+  | DEthSigVerification => if forallb is_eth_msg (t_msgs t) && o_pre o then None else Some REthPath
+  | DEthEmitEvent => if o_post o then None else Some REthPath
   | _ => None
   end.
 
 (* sdk.ChainAnteDecorators: the first rejection wins *)
-Fixpoint run_chain (ds : list decorator) (cfg : config) (md : mode) (t : tx) (rest : bool) : option reason :=
+Fixpoint run_chain (ds : list decorator) (cfg : config) (md : mode) (t : tx) (o : oracle) : option reason :=
   match ds with
   | [] => None
-  | d :: r => match run_decorator d cfg md t rest with
+  | d :: r => match run_decorator d cfg md t o with
               | Some e => Some e
-              | None => run_chain r cfg md t rest
+              | None => run_chain r cfg md t o
               end
   end.
 
-Definition cosmos_handler (eip712 : bool) (cfg : config) (md : mode) (t : tx) (rest : bool) : verdict :=
-  match run_chain (cosmos_chain eip712 (c_fetchers cfg)) cfg md t rest with
+Definition cosmos_handler (eip712 : bool) (cfg : config) (md : mode) (t : tx) (o : oracle) : verdict :=
+  match run_chain (cosmos_chain eip712 (c_fetchers cfg)) cfg md t o with
   | Some e => Reject e
   | None => Accept (if eip712 then PWeb3 else PCosmos)
   end.
 
-(* newEthAnteHandler: every decorator that walks the messages insists on
-   *evmtypes.MsgEthereumTx (EthSigVerificationDecorator does so in every mode);
-   there is no mempool, vesting or authz decorator in this chain. *)
-Definition eth_handler (t : tx) (rest : bool) : verdict :=
-  if forallb is_eth_msg (t_msgs t) && rest then Accept PEth else Reject REthPath.
+Definition eth_handler (cfg : config) (md : mode) (t : tx) (o : oracle) : verdict :=
+  match run_chain (eth_chain (c_fetchers cfg)) cfg md t o with
+  | Some e => Reject e
+  | None => Accept PEth
+  end.
 
 (** NewAnteHandler: routing on the extension options. *)
-Definition ante (cfg : config) (md : mode) (t : tx) (rest : bool) : verdict :=
+Definition ante (cfg : config) (md : mode) (t : tx) (o : oracle) : verdict :=
   match t_opts t with
   | _ :: _ :: _ => Reject RExtMany
-  | [o] =>
-      if String.eqb o opt_eth then eth_handler t rest
-      else if String.eqb o opt_web3 then cosmos_handler true cfg md t rest
+  | [u] =>
+      if String.eqb u opt_eth then eth_handler cfg md t o
+      else if String.eqb u opt_web3 then cosmos_handler true cfg md t o
       else Reject RExtUnknown
-  | [] => cosmos_handler false cfg md t rest
+  | [] => cosmos_handler false cfg md t o
   end.
 
 (** * Tables compared with the source *)
@@ -251,6 +278,15 @@ Definition decorator_name (d : decorator) : string :=
   | DSigVerification => "sigVerification=authante.NewSigVerificationDecorator|[options.isEIP712]evmante.NewLegacyEip712SigVerificationDecorator"
   | DIncrementSequence => "authante.NewIncrementSequenceDecorator"
   | DRedundantRelay => "ibcante.NewRedundantRelayDecorator"
+  | DEthSetUpContext => "evmante.NewEthSetUpContextDecorator"
+  | DEthMempoolFee => "evmante.NewEthMempoolFeeDecorator"
+  | DEthValidateBasic => "evmante.NewEthValidateBasicDecorator"
+  | DEthSigVerification => "evmante.NewEthSigVerificationDecorator"
+  | DEthAccountVerification => "evmante.NewEthAccountVerificationDecorator"
+  | DCanTransfer => "evmante.NewCanTransferDecorator"
+  | DEthGasConsume => "evmante.NewEthGasConsumeDecorator"
+  | DEthIncrementSenderSequence => "evmante.NewEthIncrementSenderSequenceDecorator"
+  | DEthEmitEvent => "evmante.NewEthEmitEventDecorator"
   end%string.
 
 Definition cond_prefix (c : cond) : string :=
@@ -264,11 +300,7 @@ Definition chain_names : list string :=
   map (fun e => (cond_prefix (fst e) ++ decorator_name (snd e))%string) chain_table.
 
 Definition eth_chain_names : list string :=
-  [ "evmante.NewEthSetUpContextDecorator"; "evmante.NewEthMempoolFeeDecorator";
-    "evmante.NewEthValidateBasicDecorator"; "evmante.NewEthSigVerificationDecorator";
-    "evmante.NewEthAccountVerificationDecorator"; "evmante.NewCanTransferDecorator";
-    "evmante.NewEthGasConsumeDecorator"; "evmante.NewEthIncrementSenderSequenceDecorator";
-    "evmante.NewEthEmitEventDecorator" ]%string.
+  map (fun e => (cond_prefix (fst e) ++ decorator_name (snd e))%string) eth_chain_table.
 
 (* the router's cases: (extension-option URL, handler) in source order *)
 Definition router_names : list string :=
@@ -319,25 +351,22 @@ Definition blocked_inside_b (dis : list url) (m : msg) : bool :=
 Definition contains_eth_b (m : msg) : bool := existsb is_eth_msg (m :: descendants m).
 
 (* boolean form of the property on one evaluation (by theorem never false) *)
-Definition inv_b (cfg : config) (md : mode) (t : tx) (rest : bool) : bool :=
-  match ante cfg md t rest with
+Definition inv_b (cfg : config) (md : mode) (t : tx) (o : oracle) : bool :=
+  match ante cfg md t o with
   | Reject _ => true
   | Accept p =>
       negb (existsb (blocked_inside_b disabled_types) (t_msgs t))
       && negb (existsb (fun m => is_disabled vesting_types (msg_url m)) (t_msgs t))
       && (negb (existsb contains_eth_b (t_msgs t))
           || match p with PEth => list_eqb String.eqb (t_opts t) [opt_eth] | _ => false end)
-      && (match p with
-          | PEth => true
-          | _ => negb (c_fetchers cfg) || negb (is_check_tx md && negb (simulate_flag md))
-                 || common_addresses_exist (t_signers t) (c_authorised cfg)
-          end)
+      && (negb (c_fetchers cfg) || negb (is_check_tx md && negb (simulate_flag md))
+          || common_addresses_exist (t_signers t) (c_authorised cfg))
   end.
 
 Record step := mkStep {
   s_mode : mode;
   s_tx : tx;
-  s_rest : bool;
+  s_oracle : oracle;
   s_obs : obs
 }.
 
@@ -363,8 +392,8 @@ Fixpoint first_mismatch (cfg : config) (ss : list step) (i : nat) : option nat :
   match ss with
   | [] => None
   | s :: r =>
-      if obs_eqb (obs_of (ante cfg (s_mode s) (s_tx s) (s_rest s))) (s_obs s)
-         && inv_b cfg (s_mode s) (s_tx s) (s_rest s)
+      if obs_eqb (obs_of (ante cfg (s_mode s) (s_tx s) (s_oracle s))) (s_obs s)
+         && inv_b cfg (s_mode s) (s_tx s) (s_oracle s)
       then first_mismatch cfg r (S i)
       else Some i
   end.
